@@ -8,7 +8,8 @@ from vlib import gens, pairs
 from vlib.geo import geo as get_geo
 from vlib.meshreal import Live, apply_op
 
-TIME_CLASSES = ['at_start', 'before', 'just_after_start', 'inside', 'at_end', 'shortly_after', 'far_after', 'tail']
+TIME_CLASSES = ['at_start', 'before', 'just_after_start', 'inside', 'at_end', 'shortly_after', 'far_after', 'tail',
+                'tau_start', 'tau_end']
 POS_CLASSES = ['interior', 'end_a', 'end_b', 'near_out', 'mid_out', 'zero', 'L', 'node_other', 'uniform', 'across_seam',
                'next_side']
 
@@ -51,6 +52,10 @@ def realise(case):
         t = tb
     elif tcl == 'shortly_after':
         t = tb + ht * 10 ** (-3 + 3 * u)
+    elif tcl == 'tau_start':
+        t = ta + (h * h / 16) * (1 + 30 * u * u)        # parabolic ratio h^2/tau between 16 and 16/31
+    elif tcl == 'tau_end':
+        t = tb + (h * h / 16) * (1 + 30 * u * u)
     else:
         t = tb + (T - tb) * u if T > tb else tb + ht * u
     xcl = case['xcl']
